@@ -21,6 +21,10 @@ def is_s(f):
 
 def clause_a(facts, rep):
     run_group(rep, 'c13_copy.cpp', 'K1', 'E10.copy-witness', 'owning types')
+    deep_copy_rule(facts, rep)
+
+
+def deep_copy_rule(facts, rep):
     # deep copy: the string arm copies unless the source is a constant string and copying was not requested
     n = 0
     for f in facts.functions:
